@@ -34,7 +34,8 @@ def mkstr(nbytes, ch):
 
 
 def string_classes(big=True):
-    out = ["", "a", TWO, THREE, FOUR, "a" + TWO + THREE + FOUR, "/", "a/b/+/#", "\u0001", "퟿�\U0010ffff"]
+    out = ["", "a", TWO, THREE, FOUR, "a" + TWO + THREE + FOUR, "/", "a/b/+/#", "\u0001", "퟿�\U0010ffff",
+           "\ufeffbom-first", "x\ufeff", "\ufeff"]
     for n in (1, 2, 127, 128, 129) + ((16383, 16384, 65534, 65535) if big else ()):
         for ch in (ONE, TWO, THREE, FOUR):
             out.append(mkstr(n, ch))
